@@ -368,6 +368,82 @@ def replay_history(case):
     return errs, n
 
 
+def forced_race(V):
+    """Replays the schedule TLC finds for RaceIsReachable in LoadThreads.tla:
+    t1 Enter, t2 Enter, t1 Strip (reads t2's loader), ...  Thread t1 is held
+    between `self.__loader = loader` and its use until t2 has stored its own
+    loader.  Both results must be the sequential ones; also checks the
+    LoaderEquivalence assumption on the real resolver tables."""
+    import yatiml.constructors as yc
+    y = Y()
+    name = '_Constructor__strip_extra_attributes'
+    if not hasattr(yc.Constructor, name):
+        V.notes['forced_race'] = 'skipped: private method renamed'
+        return
+
+    class Inner:
+        def __init__(self, v: int) -> None:
+            self.v = v
+
+    class Outer:
+        def __init__(self, a: Inner, _yatiml_extra=None) -> None:
+            self.a = a
+            self.extra = _yatiml_extra
+    fn = y.load_function(Outer, Inner)
+    l1, l2 = fn.loader(''), fn.loader('')
+    t1 = table_print(l1.yaml_implicit_resolvers)
+    t2 = table_print(l2.yaml_implicit_resolvers)
+    if t1 != t2:
+        V.violation({'part': 'threads'}, 'two Loader instances of one load '
+                    'function have different resolver tables')
+    docs = {'A': 'a: {v: 1}\nx: !Inner {v: 5}\ny: 1e5\n',
+            'B': 'a: {v: 2}\nz: [yes, !Outer {}]\n'}
+
+    def show(o):
+        return [o.a.v, repr(dict(o.extra))]
+    seq = {k: show(fn(t)) for k, t in docs.items()}
+    orig = getattr(yc.Constructor, name)
+    b_entered = threading.Event()
+    a_waiting = threading.Event()
+    who = {}
+
+    def patched(self, node, known):
+        me = who.get(threading.get_ident())
+        if me == 'A' and not a_waiting.is_set():
+            a_waiting.set()
+            b_entered.wait(5)          # hold A after Enter, before Strip
+        elif me == 'B':
+            b_entered.set()
+        return orig(self, node, known)
+    setattr(yc.Constructor, name, patched)
+    res = {}
+
+    def work(k):
+        who[threading.get_ident()] = k
+        if k == 'B':
+            a_waiting.wait(5)
+        try:
+            res[k] = show(fn(docs[k]))
+        except Exception as e:  # noqa
+            res[k] = ['EXC', type(e).__name__, str(e)[:100]]
+    try:
+        ts = [threading.Thread(target=work, args=(k,)) for k in 'AB']
+        for t in ts:
+            t.start()
+        for t in ts:
+            t.join(20)
+    finally:
+        setattr(yc.Constructor, name, orig)
+    V.evaluations += 2
+    for k in 'AB':
+        if res.get(k) != seq[k]:
+            V.violation({'part': 'threads', 'doc': docs[k]},
+                        'forced interleaving (t1 Enter, t2 Enter, t1 Strip): '
+                        'load(%r) gave %s, sequentially %s' % (
+                            docs[k], res.get(k), seq[k]))
+    V.notes['forced_race'] = 'schedule of LoadThreads.RaceIsReachable replayed'
+
+
 def run(tier, replay=None):
     V = Verdict('C11', tier)
     V.assumptions = [
@@ -395,6 +471,17 @@ def run(tier, replay=None):
     cfg = 'MC_Registry_q.cfg' if tier == 'quick' else 'MC_Registry_t.cfg'
     r = run_tlc('MC_Registry', cfg, timeout=7200)
     V.add_tlc(r, 'Registry histories ' + cfg)
+    # threads: all interleavings of concurrent loads over the shared
+    # Constructor cell (model level), the racy schedule replayed for real
+    rt = run_tlc('LoadThreads', 'LoadThreads.cfg', timeout=600,
+                 want_cases=False)
+    V.add_tlc(rt, 'LoadThreads: interleavings of 3 concurrent loads')
+    rr = run_tlc('LoadThreads', 'LoadThreads_race.cfg', timeout=600,
+                 want_cases=False, workers=1, name='loadthreads-race')
+    if not rr.violated:
+        raise MachineryError('LoadThreads: the race on the shared cell should '
+                             'be reachable (vacuity check)')
+    forced_race(V)
     cases = r.cases
     if not cases:
         raise MachineryError('no Registry histories exported')
